@@ -579,6 +579,10 @@ fn job_run(job: &J, std: &Std) -> J {
     let hosts = host_table(job);
     let main = main_name(job);
     let mut res = Map::new();
+    if job.get("also_check").and_then(|b| b.as_bool()).unwrap_or(false) {
+        let (_, chk) = compile_guarded(|| abra_core::check(&main, provider(job, std)));
+        res.insert("check".into(), chk);
+    }
     // compile once per optimizer setting that the runs ask for
     let runs: Vec<J> = job.get("runs").and_then(|r| r.as_array()).cloned().unwrap_or_default();
     let gen_spec = job.get("run_gen").cloned();
